@@ -329,6 +329,40 @@ def oracle_unordered(case):
     return out.bad("unordered-file-accepted", tsv)
 
 
+def oracle_reused_input(case):
+    """The same input object, accepted while in order, then edited in place so that its onsets are out of order
+    (and the reverse): every manager judges the table as it is now."""
+    from hed.models.tabular_input import TabularInput
+    from hed.tools.analysis.event_manager import EventManager
+    from hed.errors.exceptions import HedFileError
+    out = Outcome()
+    rows = [dict(r) for r in case["rows"]]
+    i = case["swap"]
+    if len(rows) < 2 or rows[i]["onset"] == rows[i + 1]["onset"]:
+        return out
+    out.nontrivial = True
+    tab = TabularInput(io.StringIO(to_tsv(rows)), name="h")
+    sch = hedenv.schema(VERSION)
+
+    def accepted():
+        try:
+            EventManager(tab, sch, extra_defs=def_dict())
+            return True
+        except HedFileError:
+            return False
+
+    verdicts = [accepted()]
+    col = list(tab.dataframe.columns).index("onset")
+    for _ in range(2):          # swap two onsets in place, then swap them back
+        a, b = tab.dataframe.iloc[i, col], tab.dataframe.iloc[i + 1, col]
+        tab.dataframe.iloc[i, col], tab.dataframe.iloc[i + 1, col] = b, a
+        verdicts.append(accepted())
+    if verdicts != [True, False, True]:
+        out.bad("verdict-on-reused-input-ignores-in-place-edit", f"accepted in order / after swap / swapped back: "
+                                                                  f"{verdicts}\n{to_tsv(rows)}")
+    return out
+
+
 def describe(case):
     return {"tsv": to_tsv(case["rows"]), "processes": case.get("procs")}
 
@@ -341,4 +375,5 @@ def warmup(tier):
 def parts(tier):
     q = tier == "quick"
     return [Part("contexts", oracle, strategy=history(), n=600 if q else 128000, describe=describe),
-            Part("unordered", oracle_unordered, strategy=unordered(), n=150 if q else 16000, describe=describe)]
+            Part("unordered", oracle_unordered, strategy=unordered(), n=150 if q else 16000, describe=describe),
+            Part("reused-input", oracle_reused_input, strategy=unordered(), n=100 if q else 8000, describe=describe)]
